@@ -2405,9 +2405,8 @@ impl<T> TensorBase<Vec<T>, DynLayout> {
     where
         T: Clone,
     {
-        if !self.is_contiguous() {
-            self.data = self.to_vec_in(alloc);
-        }
+        // Validate the new shape before modifying the tensor, so that the data
+        // and layout remain consistent if this panics.
         let Ok(layout) = self.layout.reshaped_for_copy(shape) else {
             panic!(
                 "element count mismatch reshaping {:?} to {:?}",
@@ -2415,6 +2414,9 @@ impl<T> TensorBase<Vec<T>, DynLayout> {
                 shape
             );
         };
+        if !self.is_contiguous() {
+            self.data = self.to_vec_in(alloc);
+        }
         self.layout = layout;
     }
 }
